@@ -509,6 +509,7 @@ for _m in ["props_world", "props_sysdata", "props_meta", "props_parseq"]:
         continue
     CHECKS.update(getattr(_mod, "CHECKS", {}))
     REPLAY_FNS.update(getattr(_mod, "REPLAY_FNS", {}))
+    REPLAY_FNS.update(getattr(_mod, "REPLAY", {}))
     EXTRA_MODULES += list(getattr(_mod, "MODULES", []))
 
 
